@@ -235,6 +235,18 @@ def state_and_sizes_bits(ctx):
             d = [x for x in p.decisions if x[2][0] == 'param']
             if d:
                 seen[d[-1][3]] = b
+        if not seen:
+            # branch-free: self.0 |= u8::from(yes) << 6 - evaluate the stored byte for yes = false / true
+            selfexpr = ('field', ('param', f.local_name(1), 1), '0')
+            for p in explore(f, max_visits=1):
+                if p.end != 'return':
+                    continue
+                st = single_store(p, f)
+                if len(st) == 1:
+                    v = p.sym.rvalue_at(st[0][1]['rv'], (st[0][2], st[0][3]))
+                    for yes in (0, 1):
+                        env_ = [(selfexpr, var_bits('old', 8)), (('param', f.local_name(2), 2), const_bits(yes, 8))] + const_env(f.crate)
+                        seen[yes] = ev(v, env_, 8)
         ok = seen.get(1) == old[:6] + [1, old[7]] and seen.get(0) == old
         ctx.check(R2, ok, 'set_final_state', 'set_final_state must set bit 6 iff the node is final and touch nothing else', fn=f)
     f = lib.fn(AT + 'is_final_state')
@@ -256,10 +268,14 @@ def state_and_sizes_bits(ctx):
     if f is not None:
         ok_small = ok_big = False
         for p, b in setter_bits(f):
-            d = [x for x in p.decisions if x[2][0] == 'bin' and x[2][2][0] == 'param']
+            d = [x for x in p.decisions if x[2][0] == 'bin' and (x[2][2][0] == 'param' or (x[2][2][0] == 'bin' and x[2][2][1] == 'Shr' and x[2][2][2][0] == 'param'))]
             if not d:
                 continue
             e, val = d[-1][2], d[-1][3]
+            if e[1] in ('Eq', 'Ne') and e[3] == ('const', 0) and e[2][0] == 'bin' and e[2][1] == 'Shr' and e[2][2][0] == 'param' and e[2][3] == ('const', 6):
+                # (n >> 6) == 0  <=>  n <= 63
+                e = ('bin', 'Le', e[2][2], ('const', 0x3f))
+                val = val if d[-1][2][1] == 'Eq' else 1 - val
             fits = (e[1] == 'Le' and e[3] == ('const', 0x3f) and val == 1) or (e[1] == 'Lt' and e[3] == ('const', 0x40) and val == 1) or (e[1] == 'Gt' and e[3] == ('const', 0x3f) and val == 0)
             over = (e[1] == 'Le' and e[3] == ('const', 0x3f) and val == 0) or (e[1] == 'Lt' and e[3] == ('const', 0x40) and val == 0) or (e[1] == 'Gt' and e[3] == ('const', 0x3f) and val == 1)
             if fits:
